@@ -34,6 +34,39 @@ class C11(F.Spec):
             yield self.gen_scenario(rng, i, late=True)
         for i in range(80 if tier == "quick" else 1200):
             yield self.gen_at(rng, i)
+        for i in range(10 if tier == "quick" else 60):
+            yield self.gen_at_chain(rng, i)
+
+    def gen_at_chain(self, rng, i):
+        """monostable button: a few quick clicks and then a press kept down beyond the hold time, with the hold trigger and
+        multiplicities above the number of clicks enabled - the long press is one more click of the gesture, not a hold"""
+        has_relay = i % 2 == 0
+        cap = sum(self.PRESS) | 1024
+        hold, multi = [self.at_defaults(), (700, 300), (1000, 350)][i % 3]
+        M = 3 + i % 3
+        active = 1024 | sum(self.PRESS[1:M]) | (self.PRESS[0] if i % 4 == 1 else 0)
+        n = 1 + (i // 3) % (M - 2)
+        ops = ["board relay2", "inlevel 9 1", "inlevel 10 1", "intype 1 2", "incap 1 5 %d" % cap]
+        if not has_relay:
+            ops.append("inrelay 1 255")
+        ops += ["init", "adv 1000", "inlog 1", "calllog 1"]
+        if (hold, multi) != self.at_defaults():
+            ops.append("attimes %d %d" % (hold, multi))
+        ops += ["attrig 1 %d" % active, "adv 900", "pingreply", "adv 900", "pingreply", "adv 900", "pingreply"]
+        for _ in range(n):
+            ops += ["input 10 0", "advus %d" % rng.randint(141000, min(multi, hold) * 1000 - 80000),
+                    "input 10 1", "advus %d" % rng.randint(141000, multi * 1000 - 80000)]
+        ops.append("input 10 0")
+        left = hold * 1000 + rng.randint(100000, 500000)
+        while left > 0:
+            k = min(left, 900000)
+            ops.append("advus %d" % k)
+            left -= k
+            if k == 900000:
+                ops.append("pingreply")
+        ops += ["input 10 1", "adv 900", "pingreply", "adv 900", "pingreply", "adv 900"]
+        return F.Case("atchain%d" % i, ops, {"tags": ["kind:at", "type:2", "relay:%d" % has_relay, "clicks-then-long-press"], "kind": "at", "typ": 2,
+                                             "has_relay": has_relay, "cap": cap, "hold": hold, "multi": multi, "noshrink": True})
 
     def gen_probe(self, rng, i):
         ops = ["board relay4", "init", "adv 1000"]
@@ -130,7 +163,8 @@ class C11(F.Spec):
             if rng.random() < .15:
                 m |= 1 << 20            # something the input is not capable of
             return m or rng.choice(pool)
-        ops.append("attrig 1 %d" % mask())
+        cur = [mask()]
+        ops.append("attrig 1 %d" % cur[0])
         lvl = 1
         lvl_box, glitches = [1], [0]
 
@@ -169,6 +203,10 @@ class C11(F.Spec):
                         lvl_box[0] = lvl
                         ops.append("input 10 %d" % lvl)
                         wait(rng.randint(141000, multi * 1000 - 25000))
+                    if rng.random() < .12:
+                        # the server repeats the configuration it already sent (it does after every registration): the set of
+                        # triggers is the same, a gesture in progress goes on
+                        ops.append("attrig 1 %d" % cur[0])
             elif g == "hold":
                 lvl = 1 - lvl
                 lvl_box[0] = lvl
@@ -179,7 +217,9 @@ class C11(F.Spec):
                     lvl_box[0] = lvl
                     ops.append("input 10 %d" % lvl)
             else:
-                ops.append("attrig 1 %d" % mask())
+                if rng.random() < .6:
+                    cur[0] = mask()
+                ops.append("attrig 1 %d" % cur[0])
             wait(rng.choice([rng.randint(141000, multi * 1000 - 25000), multi * 1000 + rng.randint(150000, 400000), 1200000]))
         wait(1500000)
         return F.Case("at%d-%s" % (i, "mono" if typ == 2 else "bi"), ops,
@@ -347,8 +387,8 @@ class C11(F.Spec):
             if not act or act[-1][0] == 0:
                 continue
             active, _, relay_conn = act[-1]
-            if any(t0 - 2 * multi - hold <= ct <= t1 + 2 * multi for ct, c in cfgs):
-                continue          # the active set changed around the burst
+            if any(t0 - 2 * multi - hold <= ct <= t1 + 2 * multi and c != act[-1] for ct, c in cfgs):
+                continue          # the active set changed around the burst (the same set sent once more is no change)
             if t0 - prev_end < multi + 100000 and bi:
                 continue          # not clearly separated from the previous burst
             if next_start is not None and next_start - t1 < multi + 100000:
@@ -393,6 +433,27 @@ class C11(F.Spec):
                 if holds != want or others:
                     fs.append(F.Finding("hold-resolved-wrongly", "a %d ms press from idle (hold time %d ms, active set %d): hold triggers %s, "
                                         "click triggers/local actions %d" % ((r - p) // 1000, hold // 1000, act[-1][0], holds, len(others))))
+        # a long press that continues a gesture of quick clicks is one more click of that gesture, not a hold
+        if typ == 2:
+            for j, (p, r) in enumerate(clicks):
+                act = [c for ct, c in cfgs if ct <= p]
+                if not j or not act or act[-1][0] == 0 or r - p < hold + 60000:
+                    continue
+                M = max([k + 1 for k in range(5) if act[-1][0] & count_bits[k]] or [0])
+                n, k = 0, j
+                while k > 0 and clicks[k][0] - clicks[k - 1][1] < multi - 60000 and clicks[k - 1][1] - clicks[k - 1][0] < hold - 60000:
+                    n, k = n + 1, k - 1
+                if n == 0 or n > M - 2:
+                    continue
+                if k and clicks[k][0] - clicks[k - 1][1] < multi + 100000:
+                    continue          # the chain is not clearly separated from what came before
+                if any(clicks[k][0] - 2 * multi - hold <= ct <= r + 2 * multi and c != act[-1] for ct, c in cfgs):
+                    continue
+                holds = [v for t, kd, v in outs if kd == "trig" and v == 1024 and p <= t <= r + 100000]
+                if holds:
+                    fs.append(F.Finding("hold-inside-gesture", "%d quick clicks and then a %d ms press (hold time %d ms, active set %d, highest "
+                                        "multiplicity %d): a hold trigger is sent for the press that is click %d of the gesture" % (
+                                            n, (r - p) // 1000, hold // 1000, act[-1][0], M, n + 1)))
         return fs
 
     def nontrivial_key(self, case, groups):
